@@ -190,3 +190,33 @@ def r6s(ctx: Ctx, modules: tuple[str, ...] = ("cirkit",)) -> list[Ob]:
             else:
                 obs.append(ok("R6s", c.qualname, f"class-level-state:{name}", "rebound per instance in __init__" if rebinds else "never mutated through self", loc))
     return obs
+
+
+# ------------------------------------------------------------------------------------------ R6w
+WEAK = {"WeakKeyDictionary", "WeakValueDictionary", "WeakSet", "WeakMethod", "ref", "proxy", "finalize"}
+
+
+def r6w(ctx: Ctx, modules: tuple[str, ...] = ("cirkit.backend", "cirkit.pipeline", "cirkit.utils.algorithms", "cirkit.symbolic.registry")) -> list[Ob]:
+    """R6w -- registrations are strong references.
+
+    The compiled / symbolic association (``BiMap``), the parameter registry of the compiler and the
+    rule registries promise that what was registered can be queried later ('compiling the same
+    symbolic circuit again returns the same compiled object', operators applied to *compiled*
+    circuits look their symbolic circuits up).  A weak container (``weakref.WeakKeyDictionary`` ..)
+    in their storage makes an entry live only as long as somebody else holds the key: the symbolic
+    result of ``ctx.multiply(..)`` is held by the map alone and is gone when the call returns."""
+    out: list[Ob] = []
+    n_cls = 0
+    for c in ctx.repo.classes.values():
+        if not c.module.name.startswith(modules):
+            continue
+        n_cls += 1
+        for m in c.methods.values():
+            for n in walk_no_nested(m.node):
+                if isinstance(n, ast.Call):
+                    name = (dotted(n.func) or "").split(".")[-1]
+                    full = dotted(n.func) or ""
+                    if name in WEAK and (name.startswith("Weak") or full.startswith("weakref.")):
+                        out.append(viol("R6w", c.qualname, f"weak-storage:{m.name}", f"{c.name}.{m.name} stores registrations in {full}(..): an entry disappears as soon as nothing else references its key / value -- lookups of a registered circuit (has_symbolic, get_symbolic_circuit, compiling it again) then fail or build a second object", f"{c.module.relpath}:{n.lineno}"))
+    out.append(ok("R6w", "cirkit", "weak-storage", f"{n_cls} registry-side classes scanned: no weak container", "", nontrivial=(n_cls > 0)))
+    return out
